@@ -4,4 +4,5 @@ set -e
 export CARGO_NET_OFFLINE=true
 cd /verif/harness
 cargo build -q -p mon
+cargo build -q --release -p mon
 echo "setup ok"
